@@ -895,3 +895,25 @@ func MarkRet() int {
 	s.Steps++
 	return s.Steps
 }
+
+// Quiesce blocks the caller until no other managed thread can run, i.e. all
+// background work that was runnable has run to completion (deterministic
+// sequential programs use it as their explicit "let the background run" step).
+func Quiesce() {
+	s := cur
+	if s == nil {
+		return
+	}
+	if s.poison {
+		panic(poisonExit{})
+	}
+	t := s.running
+	Point(&Op{Kind: KYield, Enabled: func() bool {
+		for _, th := range s.threads {
+			if th != t && !th.done && s.enabled(th) {
+				return false
+			}
+		}
+		return true
+	}})
+}
